@@ -478,3 +478,40 @@ Proof.
     destruct (import_export_root r (Himp k r Hkr)) as (r'' & Hir' & He). rewrite Hir in Hir'. inversion Hir'; subst r''.
     exists r'. split; [exact Hl|exact He].
 Qed.
+
+(* ---------------------------------------------------------------- the Go copy lines read the member the model copies *)
+Lemma import_rhs_ok : rhs_table_ok expected_import ReflectGen.import_rhs = true.
+Proof. vm_compute. reflexivity. Qed.
+Lemma export_rhs_ok : rhs_table_ok (fun _ => expected_export) ReflectGen.export_rhs = true.
+Proof. vm_compute. reflexivity. Qed.
+(* every member the model treats as copied has an expected source text (so the check above is not vacuous) *)
+Lemma import_rhs_covers :
+  forallb (fun e => match e with (site, typ, kvs) =>
+             forallb (fun kv => match expected_import site typ (fst kv) with
+                                | Some _ => true
+                                | None => existsb (String.eqb (fst kv))
+                                            ["fieldContext"; "Ref"; "Kind"; "WellKnownTypeName"; "Properties"; "rootSchema"; "pkg";
+                                             "Parent"; "parent"; "nameInParent"]%string
+                                end) kvs end) ReflectGen.import_rhs = true.
+Proof. vm_compute. reflexivity. Qed.
+(* the Kind each scalar import site sets is the one the model sets *)
+Lemma import_kind_ok :
+  forallb (fun e => match e with (site, typ, kvs) =>
+             if String.eqb typ "ScalarSchema" then
+               match expected_kind_text site with
+               | Some want => existsb (fun kv => String.eqb (fst kv) "Kind" && String.eqb (snd kv) want) kvs
+               | None => false
+               end
+             else true end) ReflectGen.import_rhs = true.
+Proof. vm_compute. reflexivity. Qed.
+(* intKinds / floatKinds of schema_from_desc.go are the model's int_kind / float_kind *)
+Lemma int_kinds_agree :
+  map (fun fmt => (int_format_name fmt ++ "=>" ++ match int_kind fmt with Some k => kind_go_name k | None => "" end)%string)
+      [1%N; 2%N; 3%N; 4%N] = ReflectGen.intKinds /\
+  int_kind 0 = None /\ int_kind 5 = None.
+Proof. repeat split; vm_compute; reflexivity. Qed.
+Lemma float_kinds_agree :
+  map (fun fmt => (float_format_name fmt ++ "=>" ++ match float_kind fmt with Some k => kind_go_name k | None => "" end)%string)
+      [1%N; 2%N] = ReflectGen.floatKinds /\
+  float_kind 0 = None /\ float_kind 3 = None.
+Proof. repeat split; vm_compute; reflexivity. Qed.
